@@ -31,7 +31,8 @@ ASSUMPTIONS = ['transport timeouts are honoured by the fake transports in '
                'connection was ended; every bound in the statement is far '
                'below that']
 REQUIRED = ['connect_outcome', 'one_connect_event', 'one_disconnect_event',
-            'state_reset', 'wait_returns', 'reusable', 'idle_noops']
+            'state_reset', 'wait_returns', 'reusable', 'idle_noops',
+            'preempt_races']
 SHARD_TIMEOUT = {'quick': 500, 'thorough': 3400}
 
 OPENS = ['ok', 'refuse', 'status401', 'status500', 'garbage', 'empty',
@@ -292,6 +293,68 @@ def run_case(rec, case):
         rec.sample(case)
 
 
+def run_preempt(rec, case):
+    """Two parties end the connection at once (application disconnect() vs
+    the read loop receiving CLOSE / the transport failing) on the OS-thread
+    backend with line-level pre-emption inside the client's functions."""
+    from vf import preempt
+    rec.evaluations += 1
+    transport, racer, seed = case['transport'], case['racer'], case['sched']
+    w = cli.make_world('T', script={'pi': PI, 'pt': PT}, policy='random',
+                       seed=seed, yield_prob=0.2, backend='thread',
+                       request_timeout=5)
+    preempt.install(w.sched, seed, p=0.2)
+
+    def V(key, msg):
+        rec.viol(key, msg + ' | PREEMPT client=Client transport=%s racer=%s '
+                 'seed=%d' % (transport, racer, seed), case)
+    try:
+        c, srv = w.cli, w.srv
+        r = c.call('connect', 'http://srv.test/', transports=[transport])
+        w.run_until(lambda: r['done'], 30)
+        if not r['done'] or r['exc'] is not None:
+            V('connect-failed', 'connect: %r' % (r['exc'],))
+            return
+        w.quiesce()
+        rec.count('preempt_races')
+        if racer == 'server-close':
+            if transport == 'polling':
+                srv.push('1')
+            else:
+                srv.ws.push('1')
+        elif racer == 'drop':
+            srv.dropped = True
+            if transport == 'polling':
+                srv.pollq.put(None)
+            else:
+                srv.ws.server_close()
+        c.call('disconnect')
+        if racer == 'two-disconnects':
+            c.call('disconnect')
+        w.quiesce()
+        w.run_until(lambda: c.c.state == 'disconnected' and
+                    not w.live_client_tasks(), 60)
+        w.advance(12)
+        ev, pre = preempt.uninstall()
+        rec.count('preempt_line_events', ev)
+        rec.count('preemptions', pre)
+        dis = [e for e in c.events if e['ev'] == 'disconnect']
+        if len(dis) > 1:
+            V('client-disconnect-race', 'two parties ended the '
+              'connection at once: %d disconnect events %r' % (
+                  len(dis), [d['reason'] for d in dis]))
+        elif len(dis) == 0:
+            V('no-disconnect-event', 'no disconnect event; state=%r' %
+              c.c.state)
+        elif c.c.state != 'disconnected' or c.c.sid is not None:
+            V('state-not-reset-under-preemption', 'state=%r sid=%r' % (
+                c.c.state, c.c.sid))
+        rec.key('preempt/%s/%s/%d' % (transport, racer, len(dis)))
+    finally:
+        preempt.uninstall()
+        w.teardown()
+
+
 def plan(tier, seed):
     rng = gen.mkrng('c08', seed)
     cases = []
@@ -323,13 +386,30 @@ def plan(tier, seed):
                     list(rng.choice(cells)) for _ in range(3)]})
     rng.shuffle(cases)
     n = 16
-    return [{'cases': cases[i::n]} for i in range(n)]
+    shards = [{'cases': cases[i::n]} for i in range(n)]
+    pre = []
+    for sd in (range(1, 6) if tier == 'quick' else range(1, 150)):
+        for tr in ('polling', 'websocket'):
+            for racer in ('server-close', 'drop', 'two-disconnects'):
+                pre.append({'preempt': True, 'transport': tr, 'racer': racer,
+                            'sched': seed * 10000 + sd})
+    k = 1 if tier == 'quick' else 4
+    for i in range(k):
+        shards.append({'cases': pre[i::k]})
+    return shards
+
+
+def dispatch(rec, case):
+    if case.get('preempt'):
+        run_preempt(rec, case)
+    else:
+        run_case(rec, case)
 
 
 def run_shard(spec):
     rec = Rec()
-    scen.run_cases(rec, spec['cases'], run_case)
+    scen.run_cases(rec, spec['cases'], dispatch)
     return rec.result()
 
 
-replay = scen.simple_replay(run_case)
+replay = scen.simple_replay(dispatch)
